@@ -105,11 +105,34 @@ def run(ctx, idx):
             else:
                 order.append("own" if is_node_attr(v, "result_name") else find_arg(v))
     ok = order == ["own", "NewFieldName", "InFieldName"]
-    if not ok and not order:
+    if not ok and isinstance(e, ast.BoolOp):
+        # a source that is a local filled in by a loop over the arguments: if it is not reset for each command it carries the
+        # previous command's value over (a violation whatever the loop does); if it is, what the loop picks is not read here
+        node_loop = next((n for n in own_nodes(fi.node) if isinstance(n, ast.For) and isinstance(n.target, ast.Name) and n.target.id == loopvar and any(ctor is x for x in ast.walk(n))), None)
+        for v in flat_or(e):
+            if isinstance(v, ast.Name) and v.id != loopvar and node_loop is not None:
+                def _targets(st):
+                    for t in (st.targets if isinstance(st, ast.Assign) else []):
+                        for x in ([t] if isinstance(t, ast.Name) else t.elts if isinstance(t, ast.Tuple) else []):
+                            if isinstance(x, ast.Name):
+                                yield x.id
+                reset = any(v.id in set(_targets(st)) for st in node_loop.body)
+                inner = any(v.id in set(_targets(st)) for st in ast.walk(node_loop) if isinstance(st, ast.Assign))
+                if inner and not reset:
+                    ctx.ob("C16.b", "%s::result-name" % fi.key, utils.rel, ctor.lineno, False,
+                           "the result-name source `%s` is filled in while the arguments are walked but never reset per command: a command without that argument gets the value left by an earlier command" % v.id)
+                    order = None
+                    break
+                if inner:
+                    raise AnalysisError("C16.b: the result-name source `%s` is picked up by a loop over the arguments; which argument it ends up holding is outside the recognised forms" % v.id)
+    if order is None:
+        pass
+    elif not ok and not order:
         # not an `a or b or c` chain (e.g. a loop over the candidate argument names): the order of the sources is not
         # something this rule can read off - no verdict rather than a guess
         raise AnalysisError("C16.b: the result name of a converted command is computed by `%s`, which is outside the recognised forms (own name or NewFieldName or InFieldName as one expression)" % K.src(e)[:60])
-    ctx.ob("C16.b", "%s::result-name" % fi.key, utils.rel, ctor.lineno, ok,
+    if order is not None:
+      ctx.ob("C16.b", "%s::result-name" % fi.key, utils.rel, ctor.lineno, ok,
            "result name = own or NewFieldName or InFieldName" if ok else "result name sources are %s, expected own result name, then NewFieldName, then InFieldName" % (order or K.src(e)))
     # the name comes from an argument *value*, which the parser delivers as any kind (list, number, boolean, nothing):
     # it must be checked to be a name before it is used as one
@@ -168,6 +191,10 @@ def run(ctx, idx):
                 keeps_others = (notin and in_body) or ((not notin) and (cont or not in_body))
                 ok = dropped == {"NewFieldName", "OutFileName"} and keeps_others
                 why = "arguments kept in order by an explicit loop, dropping exactly %s" % sorted(dropped or [])
+    if not ok and isinstance(raw_args.get("arguments"), ast.Name):
+        verdict = _kept_by_name(idx, fi, raw_args["arguments"].id, is_node_attr)
+        if verdict is not None:
+            ok, why = verdict
     ctx.ob("C16.b", "%s::arguments" % fi.key, utils.rel, ctor.lineno, ok, why if ok else "converted arguments are not `old arguments minus {NewFieldName, OutFileName}` in order: %s" % why)
     # the conversion refuses a command only when none of the three name sources exists
     loop = next(n for n in own_nodes(fi.node) if isinstance(n, ast.For) and any(ctor is x for x in ast.walk(n)))
@@ -446,6 +473,90 @@ def run(ctx, idx):
             raise AnalysisError("C16.c: the version p_program reports is outside the recognised forms")
         ok = v_true == 2 and v_false == 3
         ctx.ob("C16.c", "mpilot/parser/parser.py::Parser.p_program::version", pmod.rel, pp.node.lineno, ok, "program node reports 2 iff the flag is set" if ok else "p_program reports version %r with the EEMS 2.0 flag set and %r without it (2 and 3 expected)" % (v_true, v_false))
+
+
+def _kept_by_name(idx, fi, listname, is_node_attr):
+    """Which of the old arguments end up in the list `listname`, decided per argument name over the classes {NewFieldName,
+    OutFileName, any other name}: the loop(s) over node.arguments are evaluated abstractly, branch tests on `<arg>.name` against
+    constants decide, every other test is taken both ways.  -> (ok, why) or None when the construction is not a loop of that kind."""
+    inits = [n for n in own_nodes(fi.node) if isinstance(n, ast.Assign) and any(isinstance(t, ast.Name) and t.id == listname for t in n.targets)]
+    if len(inits) != 1:
+        return None
+    iv = inits[0].value
+    if isinstance(iv, ast.List) and not iv.elts:
+        start = False
+    elif isinstance(iv, ast.Call) and isinstance(iv.func, ast.Name) and iv.func.id == "list" and len(iv.args) == 1 and is_node_attr(iv.args[0], "arguments"):
+        start = True
+    else:
+        return None
+    loops = [lp for lp in own_nodes(fi.node) if isinstance(lp, ast.For) and isinstance(lp.target, ast.Name) and is_node_attr(lp.iter, "arguments")
+             and any(isinstance(c, ast.Call) and isinstance(c.func, ast.Attribute) and isinstance(c.func.value, ast.Name) and c.func.value.id == listname for c in ast.walk(lp))]
+    if not loops:
+        return None
+    classes = ("NewFieldName", "OutFileName", "<any other name>")
+
+    def test(e, var, cls):
+        if isinstance(e, ast.UnaryOp) and isinstance(e.op, ast.Not):
+            r = test(e.operand, var, cls)
+            return None if r is None else not r
+        if isinstance(e, ast.BoolOp):
+            rs = [test(v, var, cls) for v in e.values]
+            if isinstance(e.op, ast.And):
+                return False if False in rs else (None if None in rs else True)
+            return True if True in rs else (None if None in rs else False)
+        if isinstance(e, ast.Compare) and len(e.ops) == 1 and K.src(e.left) == "%s.name" % var:
+            try:
+                c = idx.const(fi.module, e.comparators[0], fi)
+            except Exception:
+                return None
+            op = e.ops[0]
+            if isinstance(op, (ast.Eq, ast.NotEq)) and isinstance(c, str):
+                r = (cls == c)
+                return r if isinstance(op, ast.Eq) else not r
+            if isinstance(op, (ast.In, ast.NotIn)) and isinstance(c, (tuple, list, set, frozenset)):
+                r = cls in c
+                return r if isinstance(op, ast.In) else not r
+        return None
+
+    def run(stmts, var, cls, kept):
+        """-> set of (kept, stopped) outcomes"""
+        states = {(kept, False)}
+        for st in stmts:
+            nxt = set()
+            for k, stopped in states:
+                if stopped:
+                    nxt.add((k, True))
+                    continue
+                if isinstance(st, ast.If):
+                    r = test(st.test, var, cls)
+                    for br, taken in ((st.body, True), (st.orelse, False)):
+                        if r is None or r == taken:
+                            nxt |= run(br, var, cls, k)
+                elif isinstance(st, ast.Continue):
+                    nxt.add((k, True))
+                elif isinstance(st, ast.Expr) and isinstance(st.value, ast.Call) and isinstance(st.value.func, ast.Attribute) and isinstance(st.value.func.value, ast.Name) and st.value.func.value.id == listname \
+                        and st.value.args and isinstance(st.value.args[0], ast.Name) and st.value.args[0].id == var:
+                    nxt.add((True if st.value.func.attr == "append" else False if st.value.func.attr == "remove" else k, False))
+                else:
+                    nxt.add((k, False))
+            states = nxt
+        return states
+
+    result = {}
+    for cls in classes:
+        kept = {start}
+        for lp in loops:
+            new = set()
+            for k in kept:
+                new |= {k2 for k2, _s in run(lp.body, lp.target.id, cls, k)}
+            kept = new
+        result[cls] = kept
+    want = {"NewFieldName": {False}, "OutFileName": {False}, "<any other name>": {True}}
+    bad = [c for c in classes if result[c] != want[c]]
+    if not bad:
+        return True, "per argument name: NewFieldName and OutFileName are always dropped, every other argument is always kept (order of the old list)"
+    c = bad[0]
+    return False, "an argument named %s %s" % (c, "can stay in the converted command" if want[c] == {False} else "can be dropped from the converted command")
 
 
 def parser_state(ctx, idx, rule):
